@@ -118,7 +118,7 @@ impl HG {
 
 const PROBE_VARS: &[&str] = &[
     "VE1", "VE2", "VS1", "vs_lower", "VA1", "VH1", "VI1", INHERITED, "VS_CFG", "UIDX", "PPID2", "x1", "_under", "BASH_MINE", "LINENO_COPY", "SCRUT_TESTX", "VL1", "VU1",
-    "VEMPTY",
+    "VEMPTY", "CDPATH", "GREP_OPTIONS",
 ];
 
 fn probe_all() -> String {
@@ -128,6 +128,7 @@ fn probe_all() -> String {
     }
     s.push_str("printenv VE1 || echo VE1:not-in-env\n");
     s.push_str("printenv VS_CFG || echo VS_CFG:not-in-env\n");
+    s.push_str("printenv CDPATH; echo \"CDPATH-in-env:$?\"\n");
     s.push_str(&format!("printenv {INHERITED} || echo {INHERITED}:not-in-env\n"));
     s.push_str("declare -f f1 || echo f1:undefined\n");
     s.push_str("declare -f f_heredoc || echo f_heredoc:undefined\n");
@@ -151,7 +152,7 @@ fn gen_history(seed: u64, idx: usize, steer_around_known: bool) -> History {
     let mut cfg_touched = false;
     for k in 0..n {
         let mut env: BTreeMap<String, String> = BTreeMap::new();
-        let (tag, code): (String, String) = match g.below(47) {
+        let (tag, code): (String, String) = match g.below(49) {
             0 => ("export-define".into(), format!("export VE1={}", g.value())),
             1 => ("export-modify".into(), "export VE1=\"${VE1:-none} more\"".into()),
             2 => ("export-unset".into(), "unset VE1".into()),
@@ -227,6 +228,14 @@ fn gen_history(seed: u64, idx: usize, steer_around_known: bool) -> History {
             34 => ("alias-of-alias".into(), "alias a1='echo inner'; alias a2='a1 outer'".into()),
             35 => ("dirstack-deep".into(), "pushd 'd 1' >/dev/null 2>&1; pushd ../d2 >/dev/null 2>&1; pushd inner >/dev/null 2>&1".into()),
             36 => ("func-constructs".into(), "f1() { local -a arr=(1 \"two words\"); case \"$1\" in a|b) echo ab;; *) echo \"other ${arr[1]}\";; esac; cat <<EOT\n  heredoc $1 line\nEOT\n}".into()),
+            47 => ("inherited-empty".into(), format!("{}{}=", g.pick(&["", "export "]), INHERITED)),
+            48 => {
+                if steer_around_known {
+                    ("export-n".into(), "export -n VE1 2>/dev/null".into())
+                } else {
+                    ("inherited-export-n".into(), format!("export -n {}", INHERITED))
+                }
+            }
             40 => ("export-n".into(), "export -n VE1 2>/dev/null; export -n VE2 2>/dev/null".into()),
             41 => ("attr-lower-upper".into(), "declare -l VL1=MiXed; declare -u VU1=MiXed".into()),
             42 => ("attr-modify".into(), "VL1=SHOUT-${VL1:-}; VU1=whisper".into()),
@@ -282,6 +291,8 @@ fn systematic_histories() -> Vec<History> {
             "shopt -u extglob",
             "fx y; cd d2",
         ),
+        ("inherited-empty", "VS_INHERITED=", "true", "VS_INHERITED=again"),
+        ("inherited-export-n", "export -n VS_INHERITED", "VS_INHERITED=still-not-exported", "export VS_INHERITED"),
         ("export-n", "export VE1=one VE2=two", "export -n VE1", "export VE1; export -n VE2"),
         ("attr-case", "declare -l VL1=MiXed; declare -u VU1=MiXed", "VL1=AGAIN; VU1=again", "unset VL1; declare +u VU1; VU1=Plain"),
         ("export-empty", "export VEMPTY=", "VEMPTY=filled", "export VEMPTY="),
@@ -407,6 +418,8 @@ fn run_through_scrut(h: &History) -> Result<Trace, String> {
     let mut env: BTreeMap<String, String> = BTreeMap::new();
     env.insert("VS_BASE".into(), l.work.to_string_lossy().into_owned());
     env.insert("HOME".into(), "/nonexistent-home".into());
+    env.insert("CDPATH".into(), "".into());
+    env.insert("GREP_OPTIONS".into(), "".into());
     let testcases: Vec<TestCase> = h
         .snippets
         .iter()
@@ -474,6 +487,8 @@ fn run_reference(h: &History) -> Result<Trace, String> {
         .current_dir(&l.work)
         .env("VS_BASE", &l.work)
         .env("HOME", "/nonexistent-home")
+        .env("CDPATH", "")
+        .env("GREP_OPTIONS", "")
         .env("SHELL", "/bin/bash")
         .stdin(Stdio::piped())
         .stdout(Stdio::piped())
@@ -541,6 +556,9 @@ fn known_real<'a>(k: &'a KnownFile, h: &History, detail: &str) -> Option<&'a cra
             && match f.predicate.as_str() {
                 "unset-of-inherited-variable" => {
                     h.snippets.iter().any(|s| s.tag == "inherited-unset") && detail.contains(INHERITED)
+                }
+                "export-n-of-inherited-variable" => {
+                    h.snippets.iter().any(|s| s.tag.starts_with("inherited-export-n")) && detail.contains(INHERITED) && detail.contains("declare -x")
                 }
                 "heredoc-line-looks-like-readonly-declare" => {
                     h.snippets.iter().any(|s| s.tag == "func-heredoc-declare-r") && detail.contains("looks_readonly")
